@@ -326,8 +326,9 @@ def basis_function_ders(degree, knot_vector, span, knot, order):
             saved = left[j - r] * temp
         ndu[j][j] = saved
 
-    # Load the basis functions
-    ders = [[0.0 for _ in range(degree + 1)] for _ in range((min(degree, order) + 1))]
+    # Load the basis functions (the derivatives of the orders higher than the degree are zero)
+    du = min(degree, order)
+    ders = [[0.0 for _ in range(degree + 1)] for _ in range(order + 1)]
     for j in range(0, degree + 1):
         ders[0][j] = ndu[j][degree]
 
@@ -340,7 +341,7 @@ def basis_function_ders(degree, knot_vector, span, knot, order):
         s2 = 1
         a[0][0] = 1.0
         # Loop to compute k-th derivative
-        for k in range(1, order + 1):
+        for k in range(1, du + 1):
             d = 0.0
             rk = r - k
             pk = degree - k
@@ -370,7 +371,7 @@ def basis_function_ders(degree, knot_vector, span, knot, order):
 
     # Multiply through by the the correct factors
     r = float(degree)
-    for k in range(1, order + 1):
+    for k in range(1, du + 1):
         for j in range(0, degree + 1):
             ders[k][j] *= r
         r *= (degree - k)
